@@ -196,18 +196,21 @@ fn hex_request_typed() -> (usize, TypedGen) {
     (n_a + n_b, g)
 }
 
-fn hex_response_typed(bodies: Vec<Vec<u8>>) -> (usize, TypedGen) {
+fn hex_response_typed(bodies: Vec<Vec<u8>>, thorough: bool) -> (usize, TypedGen) {
     // entries(0..=3 + 64) x status(7) x body form(5)
     const ST: [i32; 7] = [1, 0, 2, 3, -1, i32::MAX, i32::MIN];
     let counts = [1usize, 0, 2, 3, 64];
     let dims = [counts.len(), ST.len(), 5];
     let n_a = product_of(&dims);
     let n_b = 12;
-    // streams of empty entries (one zero byte each): 1 Ki, 1 Mi, 10 Mi - 1, 10 Mi, 10 Mi + 1
-    const ZEROS: [usize; 5] = [1 << 10, 1 << 20, (10 << 20) - 1, 10 << 20, (10 << 20) + 1];
+    // streams of empty entries (one zero byte each): 1 Ki, 1 Mi (thorough: 10 Mi - 1, 10 Mi, 10 Mi + 1;
+    // each of those takes seconds: ten million one-byte messages)
+    const ZEROS_ALL: [usize; 5] = [1 << 10, 1 << 20, (10 << 20) - 1, 10 << 20, (10 << 20) + 1];
+    let zeros: Vec<usize> = if thorough { ZEROS_ALL.to_vec() } else { ZEROS_ALL[..2].to_vec() };
+    let n_zeros = zeros.len();
     let g: TypedGen = Arc::new(move |ord| {
         if ord >= n_a + n_b {
-            let n = ZEROS[ord - n_a - n_b];
+            let n = zeros[ord - n_a - n_b];
             return (format!("response[{n} empty entries]"), vec![0u8; n]);
         }
         if ord < n_a {
@@ -252,7 +255,7 @@ fn hex_response_typed(bodies: Vec<Vec<u8>>) -> (usize, TypedGen) {
         b.extend_from_slice(&payload);
         (format!("response[length-prefix#{k}]"), b)
     });
-    (n_a + n_b + ZEROS.len(), g)
+    (n_a + n_b + n_zeros, g)
 }
 
 fn eds_typed(payload: Vec<u8>, thorough: bool) -> (usize, TypedGen) {
@@ -385,7 +388,7 @@ pub fn fixtures(env: &Env, d: D) -> Vec<Fx> {
             for (k, (name, req, stream, ok)) in cases.into_iter().enumerate() {
                 let f = mk_fx(d, name, Cx::HexResp { req }, Frame::Seq, stream, ok);
                 if k == 0 {
-                    let (n, g) = hex_response_typed(vec![body(0), body(1), body(2)]);
+                    let (n, g) = hex_response_typed(vec![body(0), body(1), body(2)], t);
                     out.push(mk_typed(f, n, g));
                 } else {
                     out.push(f);
